@@ -892,6 +892,12 @@ def _model_stream(shell, tier, rng):
             c, st = make_case(rng, shell, tier, profile=prof)
             cases.append(c)
             merge(dist, st)
+    # non-ASCII short options in both cases (PowerShell appends a space to an uppercase short: char::is_uppercase)
+    h = hexs
+    cases.append("(aot %s %s (cmd %s (arg %s (s %s) (l %s)) (arg %s (s %s) (act flag)) (arg %s (s %s) (vsa %s) (act flag)) "
+                 "(cmd %s (va %s))))" % (shell, h("p"), h("p"), h("o1"), h("\u00c9"), h("lo1"), h("o2"), h("\u00e9"), h("o3"),
+                                         h("\u03a9"), h("\u00df"), h("n\u00e91"), h("\u00dcn\u00ef")))
+    dist["non-ascii-shorts-case"] = 1
     return Stream(shell + "-model", cases, oracle=oracle, area=shell, project=model_script_project,
                   nontrivial=nontrivial, describe=dist)
 
@@ -904,3 +910,30 @@ def streams(tier, rng):
     out.append(_model_stream("elvish", tier, rng))
     out.append(_model_stream("powershell", tier, rng))
     return out
+
+
+# what MANIFEST.json says about C16 after round 2 (the strings above describe round 1)
+RULE = RULE + ("  Streams elvish-model / powershell-model: the same trees (+ options whose aliases have no primary, bin names with "
+               "a space / non-ASCII, non-ASCII shorts in both cases) on which the script of the extracted generator model "
+               "must equal the real script byte for byte.")
+TECHNIQUE = ("Coq proof (tree-walk soundness/completeness of utils.rs; the bash generator's transition and case tables; "
+             "byte-exact models of the PowerShell and elvish generators with coverage and lookup theorems -- all by "
+             "induction over command trees of any depth) + extracted-model/implementation correspondence (bash: script, "
+             "built tree, COMPREPLY under the installed bash; PowerShell/elvish: the script byte for byte) + token oracle "
+             "for all six shells")
+LEVEL_TEXT = (LEVEL_TEXT +
+              "  Round 2: executable Gallina transcriptions of shells/powershell.rs and shells/elvish.rs (every panic site "
+              "visible) are proved to compute one table specification; for every tree whose nodes have bin names (what "
+              "Command::build establishes) generation is total and deterministic, and for EVERY path of names or visible "
+              "aliases, at every depth, the script contains the block keyed by the ';'-joined path with an entry for every "
+              "short/long spelling and visible alias of every option or flag that has the primary spelling and for every "
+              "name and visible alias of every subcommand; when sibling names are distinct and no name contains ';' every "
+              "block with that key carries exactly that node's entries, so the shell's lookup finds it.  The two recorded "
+              "findings (aliases without primary, possible values) and the empty bin name are proved class boundaries "
+              "(refutation witnesses).  The models' scripts are compared byte for byte with the real generators' on every "
+              "generated tree on every run.")
+LEVEL_NOTE = ("Partial: zsh/fish/nushell have no generator model (token oracle only); bash itself is validated by execution, "
+              "not proved; PowerShell and elvish are not installed (their scripts are modelled and analysed, not run); "
+              "Command::build and its text side are tied differentially (built-tree dump, byte-exact scripts), and that "
+              "build never exhausts its fuel is observed, not proved; char::is_uppercase is a parameter of the PowerShell "
+              "model; known findings (see known_findings.json) are outside the proved class.")
